@@ -189,6 +189,7 @@ func runLockset(run *lib.Run, st *lib.Stats, sh *lib.Shards, next func() int) {
 	st.Extra["parts"] = len(tr.Parts)
 	st.Extra["exported_methods"] = tr.Methods
 	st.Extra["calls_not_followed"] = tr.Unknown
+	st.Extra["other_functions_taking_the_lock"] = tr.ExtraEntries
 	st.Extra["deep_copy_returns"] = tr.Deep
 	deepReturns = tr.Deep
 
